@@ -4,6 +4,9 @@ CONSTANTS
   Rounds = 2
   NoCall <- NoCallT
   None = "None"
+  RX = "rx"
+  ResetDropsStale = FALSE
+  MaxResets = 3
 CONSTRAINT Progress
 CONSTRAINT Prune
 INVARIANT MutualExclusion
@@ -12,5 +15,6 @@ INVARIANT HolderIsHead
 INVARIANT CounterGapFree
 INVARIANT BreakSemantics
 PROPERTY NoEntryAfterBreak
+PROPERTY ResetOnlyWhenIdle
 POSTCONDITION Accepted
 CHECK_DEADLOCK FALSE
